@@ -317,6 +317,38 @@ func c16Load(units []sgen.Unit, arr arrangement, dirNames []string, wantIntro bo
 			}
 			o.intro += " | " + rq + " -> " + string(toJSON(canonIntro(world.Canon(r2))))
 		}
+		// every value of every enum, wherever its definition or extension arrived, is a value a request can give: as a literal and
+		// through a variable, for every enum-typed argument of a query field
+		enumVals := map[string][]string{}
+		for _, u := range units {
+			if u.Def != nil && u.Def.Kind == sgen.KEnum {
+				for _, v := range u.Def.Values {
+					enumVals[u.Def.Name] = append(enumVals[u.Def.Name], v.Name)
+				}
+			}
+		}
+		var probes []string
+		for _, u := range units {
+			if u.Def == nil || u.Def.Kind != sgen.KObject || u.Def.Name != "Query" {
+				continue
+			}
+			for _, f := range u.Def.Fields {
+				for _, a := range f.Args {
+					for _, v := range enumVals[a.Type.Base()] {
+						probes = append(probes, fmt.Sprintf("{ %s(%s: %s) }", f.Name, a.Name, v), fmt.Sprintf("query Q($v: %s = %s) { %s(%s: $v) }", a.Type.Base(), v, f.Name, a.Name))
+					}
+				}
+			}
+		}
+		sort.Strings(probes)
+		for _, rq := range probes {
+			var r2 map[string]interface{}
+			if pi := core.Safe(func() { r2 = root.ResolveString(rq, "", nil) }); pi != nil {
+				o.panicked = pi
+				return o
+			}
+			o.intro += " | " + rq + " -> " + string(toJSON(canonIntro(world.Canon(r2))))
+		}
 	}
 	return o
 }
